@@ -87,13 +87,31 @@ const (
 	// InheritMosnconfig): in the directory modes every dump rewrites and sweeps
 	// the directory, and the harness wants to look at it after EVERY dump
 	c19EnvOneDump = "VERIF_C19_CHILD_ONEDUMP"
+	// c19EnvUpdates: a JSON file with a list of c19Update: runtime updates applied
+	// after the start (Mosn.Init, HandleExtendConfig) and before the dumps, through
+	// the admin update routes (part storage-forms; needs the mosn_debug build tag)
+	c19EnvUpdates = "VERIF_C19_CHILD_UPDATES"
 )
+
+// c19Update is one runtime update of a started MOSN.
+//
+//	update_config: the admin route /debug/update_config (pkg/admin/debug.DebugUpdateMosnConfig), Body = the request body
+//	update_route:  the admin route /debug/update_route (DebugUdpateRoute), Body = the request body
+//	router_built:  RouterManager.AddOrUpdateRouters with a configuration built in Go the way the xDS
+//	               conversion builds it (RouterConfigName + VirtualHosts only), Body = the router as JSON
+//	cluster_del:   cluster adapter TriggerClusterDel(Name) (what CDS removal calls)
+type c19Update struct {
+	Op   string      `json:"op"`
+	Name string      `json:"name,omitempty"`
+	Body interface{} `json:"body,omitempty"`
+}
 
 // c19ChildResult is what one start of MOSN reports back.
 type c19ChildResult struct {
-	Stage   string `json:"stage"`   // last stage reached: load, init, extends, inherit, persist, done
-	Err     string `json:"err"`     // error returned by Mosn.Init / InheritMosnconfig
-	Inherit string `json:"inherit"` // configmanager.InheritMosnconfig(): the hot-upgrade bytes
+	Stage   string   `json:"stage"`             // last stage reached: load, init, extends, inherit, persist, done
+	Err     string   `json:"err"`               // error returned by Mosn.Init / InheritMosnconfig
+	Inherit string   `json:"inherit"`           // configmanager.InheritMosnconfig(): the hot-upgrade bytes
+	Updates []string `json:"updates,omitempty"` // per runtime update: "ok" or "refused: …" (MOSN's answer)
 }
 
 func c19WriteResult(r *c19ChildResult) {
@@ -155,6 +173,16 @@ func TestVerifC19Child(t *testing.T) {
 	res.Stage = "extends"
 	c19WriteResult(res)
 	m.HandleExtendConfig()
+	if up := os.Getenv(c19EnvUpdates); up != "" {
+		res.Stage = "updates"
+		c19WriteResult(res)
+		var err error
+		if res.Updates, err = c19ApplyUpdates(up); err != nil {
+			res.Err = "harness: " + err.Error()
+			c19WriteResult(res)
+			os.Exit(4)
+		}
+	}
 	res.Stage = "inherit"
 	c19WriteResult(res)
 	// form 1: the bytes a hot upgrade hands to the new process
